@@ -36,6 +36,24 @@ CHECKS = {
         assumptions=["header maps have unique names (a map)", "Python leg restricted to valid UTF-8 (its API takes str)"],
         design_ref="DESIGN.md §2 C04",
     ),
+    "C05": dict(
+        title="No received byte sequence can crash or wedge a Frugal process",
+        legs=[
+            leg("TestC05Sync", quick=(4000, 4), thorough=(150000, 16), timeout_s=1800),
+        ],
+        level="exploration",
+        technique="property-based testing (rapid) with structure-aware mutation of valid frames at every receiving entry point; native go fuzzing in the thorough tier",
+        rule=("Valid request/response/pub-sub frames (binary, compact, JSON) mutated: any 4-byte size field set to 0, 1, exact+-1, len, len+1, "
+              "0x7fffffff, 0x80000000, 0xffffffff...; truncation at any byte; duplicated/dropped ranges; version byte; bit flips; pure random bytes. "
+              "Non-trivial: a size-field mutation, or input that passes the first length/version check of its entry point. Distinct: sha256(entry, bytes)."),
+        level_text=("Exploration: each receiving entry point (stream header reader, frame header reader, adapter/NATS/HTTP client response path, "
+                    "processor behind the stream/NATS/HTTP servers, subscriber callbacks) is driven synchronously with mutated frames; oracle: returns "
+                    "within a watchdog without panicking. An end-to-end leg with real goroutines and brokers requires that a well-formed message "
+                    "after the bad one is still served."),
+        level_note="Trusted: rapid, the in-process NATS/STOMP brokers, the hand-written fixtures mirroring generated code (h/rt/fixtures.go).",
+        assumptions=["a stalled stream peer is legitimate waiting, not a hang", "memory exhaustion is observed, not judged"],
+        design_ref="DESIGN.md §2 C05",
+    ),
 }
 
 NOT_APPLICABLE = [
